@@ -290,7 +290,85 @@ func checkC17(c *core.Ctx) {
 		}
 	}
 	c.Cover("calculator_overcounts_blank_lines_cases", over)
+	if c.Replay == "" {
+		lineCountConformance(c, calc)
+	}
 	c.Cover("bounds", map[string]int{"maxL": maxL, "maxK": maxK, "simL": simL, "simK": simK})
 	c.Cover("rule", "one case per (L, K, line-ending variant); non-trivial = L > 1 and K > 1; simulator cases run the real hermes2go once per printed range")
 	c.Cover("exhaustive", true)
+}
+
+// lineCountConformance: LineCount.tla (byte-level transcription of the calculator's line counter against the
+// simulator's notion of a line) at design level, then the real calculator on every file of up to n bytes over
+// {other byte, CR, LF}: the count covers the lines the simulator executes (C17_CountCovers, a verdict) and equals the
+// transcription's (MODEL-DRIFT).
+func lineCountConformance(c *core.Ctx, calc string) {
+	r := c.TLC(core.TLCOpts{Module: "LineCount", Cfg: map[bool]string{true: "LineCount_design.cfg", false: "LineCount_design_thorough.cfg"}[c.Quick()], Kind: "design-linecount", Workers: 6, Timeout: 15 * time.Minute})
+	if !r.OK() {
+		c.Infof("design-level line counter model: %s (exit %d) - decided on the real calculator below", r.Violated, r.Exit)
+	}
+	u := c.TLC(core.TLCOpts{Module: "LineCount", Cfg: "LineCount_design_control.cfg", Kind: "design-control", Workers: 4, Timeout: 10 * time.Minute})
+	c.Cover("design_control_exact_crlf_count_refuted", u.Violated == "ExactCRLF")
+	if u.Violated != "ExactCRLF" {
+		c.Machineryf("control failed: an exact count of CRLF files should be refuted for the calculator as transcribed (exit=%d %s)", u.Exit, u.Violated)
+	}
+	n := c.Pick(7, 9)
+	var files [][]string
+	var grow func(cur []string)
+	grow = func(cur []string) {
+		if len(cur) > 0 {
+			files = append(files, append([]string{}, cur...))
+		}
+		if len(cur) == n {
+			return
+		}
+		for _, b := range []string{"x", "r", "n"} {
+			grow(append(cur, b))
+		}
+	}
+	grow(nil)
+	dir := c.Sub("linecount")
+	evs := make([]map[string]interface{}, len(files))
+	parallel(len(files), 16, func(i int) {
+		var sb strings.Builder
+		for _, b := range files[i] {
+			sb.WriteString(map[string]string{"x": "a", "r": "\r", "n": "\n"}[b])
+		}
+		fn := filepath.Join(dir, fmt.Sprintf("f%d.txt", i))
+		os.WriteFile(fn, []byte(sb.String()), 0644)
+		out, code, _ := core.Run(dir, nil, 20*time.Second, nil, calc, "-size", "1000000", "-batch", fn)
+		cnt, err := strconv.Atoi(strings.TrimSpace(out))
+		if code != 0 || err != nil {
+			cnt = -1
+		}
+		evs[i] = map[string]interface{}{"ev": "lc", "w": files[i], "count": cnt}
+		os.Remove(fn)
+	})
+	trace := filepath.Join(dir, "trace.ndjson")
+	w, _ := core.NewNDWriter(trace)
+	for _, e := range evs {
+		w.Write(e)
+	}
+	w.Close()
+	c.CoverAdd("linecount_files", len(files))
+	c.Evals += len(files)
+	t := c.TLC(core.TLCOpts{Module: "Trace_LineCount", Cfg: "Trace_LineCount.cfg", Kind: "trace", Workers: 1, Timeout: 20 * time.Minute, Heap: "4g", Files: map[string]string{"trace.ndjson": trace}})
+	if t.IsViolation() {
+		l, _ := t.AliasInt("l")
+		e := evs[l-2]
+		rd := saveReplay(c, map[string]string{"event.json": jsonStr(e) + "\n", "tlc.out": t.Tail(30)})
+		c.Violate(fmt.Sprintf("%s violated: the calculator counts %v line(s) in the file %v (x = any other byte, r = CR, n = LF)", t.Violated, e["count"], e["w"]), rd)
+	} else if !t.OK() {
+		c.Machineryf("line counter trace validation failed: exit=%d\n%s", t.Exit, t.Tail(15))
+	} else {
+		c.TracesOK += len(files)
+	}
+	d := c.TLC(core.TLCOpts{Module: "Trace_LineCount", Cfg: "Trace_LineCount_drift.cfg", Kind: "trace", Workers: 1, Timeout: 20 * time.Minute, Heap: "4g", Files: map[string]string{"trace.ndjson": trace}})
+	if d.IsViolation() {
+		l, _ := d.AliasInt("l")
+		fmt.Printf("MODEL-DRIFT module=LineCount %s at %s\n", d.Violated, jsonStr(evs[l-2]))
+		c.Cover("linecount_model_drift", d.Violated)
+	} else {
+		c.Cover("linecount_model_drift", "none")
+	}
 }
